@@ -231,11 +231,11 @@ Section Facts3.
   Qed.
 
   (* ---------------- arbitrary sequences of solve_t calls (exceptions caught by the caller) ---------------- *)
-  Record call := mkCall { c_desc : mdesc; c_opts : opts num; c_t : Z }.
+  Record call := mkCall { call_desc : mdesc; call_opts : opts num; call_t : Z }.
   Fixpoint run_calls (cs : list call) (s : mstate num) : mstate num :=
     match cs with
     | [] => s
-    | c :: r => run_calls r (fst (solve_t_M (c_desc c) (c_opts c) (c_t c) s))
+    | c :: r => run_calls r (fst (solve_t_M (call_desc c) (call_opts c) (call_t c) s))
     end.
 
   Lemma upd_nth_error_cases {A} p (x : A) l q y :
@@ -253,12 +253,12 @@ Section Facts3.
     length (status s') = length (status s) /\ length (iters s') = length (iters s) /\
     forall q x, nth_error (status s') q = Some x ->
       nth_error (status s) q = Some x \/
-      exists c, In c cs /\ py_pos (length (status s)) (c_t c) = Some q /\
-        (x = Solved \/ x = Failed \/ (x = Skipped /\ errors (c_opts c) = ESkip) \/ (x = ErrorSt /\ errors (c_opts c) = ERaise)).
+      exists c, In c cs /\ py_pos (length (status s)) (call_t c) = Some q /\
+        (x = Solved \/ x = Failed \/ (x = Skipped /\ errors (call_opts c) = ESkip) \/ (x = ErrorSt /\ errors (call_opts c) = ERaise)).
   Proof.
     induction cs as [|c cs IH]; intros s; cbn [run_calls].
     - cbv zeta. repeat split; auto.
-    - cbv zeta. destruct (solve_t_M (c_desc c) (c_opts c) (c_t c) s) as [s1 r] eqn:E. cbn [fst].
+    - cbv zeta. destruct (solve_t_M (call_desc c) (call_opts c) (call_t c) s) as [s1 r] eqn:E. cbn [fst].
       specialize (IH s1). cbv zeta in IH. destruct IH as (IHl1 & IHl2 & IHq).
       pose proof (solve_t_status_shape _ _ _ _ _ _ E) as [(Hs & Hi & _)|(p & x & k & Hp & Hs & Hi & Hx)].
       + rewrite IHl1, IHl2, Hs, Hi. split; [reflexivity|]. split; [reflexivity|].
